@@ -451,19 +451,26 @@ func c02R4(p *core.Program, r *core.Report, pl *pipeline) {
 				}
 				// an io.Writer parameter that is an in-memory buffer at every call site
 				if (name == "fmt.Fprintf" || name == "fmt.Fprint" || name == "fmt.Fprintln" || name == "io.WriteString") && len(c.Args) >= 1 {
+					rootV := flatten(p, f.Root()) // parameters as the view shows them (a parameter object's fields, no receiver)
 					root := f.Root()
 					if root.Origin != nil {
 						root = root.Origin
 					}
-					if v := core.VarOf(info, c.Args[0]); v != nil && isParamOf(root, v) && root.Obj() != nil {
-						k, sites, all := paramIndex(root, v), 0, true
+					if v := core.CanonVarOf(info, rootV.Body, c.Args[0]); v != nil && isParamOf(rootV, v) && paramIndex(rootV, v) >= 0 && root.Obj() != nil {
+						k, sites, all := paramIndex(rootV, v), 0, true
 						for _, cs := range allCalls(p) {
-							if cs.In.Body == nil || core.CalleeFunc(cs.In.Info(), cs.Call) != root.Obj() || k >= len(cs.Call.Args) {
+							if cs.In.Body == nil || core.CalleeFunc(cs.In.Info(), cs.Call) != root.Obj() {
 								continue
 							}
+							// the call as the caller's view shows it (same argument positions as the callee's view)
+							call := callInView(flatten(p, cs.In.Root()), cs.Call)
 							sites++
+							if k >= len(call.Args) {
+								all = false
+								continue
+							}
 							ts := ""
-							if t := cs.In.Info().TypeOf(cs.Call.Args[k]); t != nil {
+							if t := cs.In.Info().TypeOf(call.Args[k]); t != nil {
 								ts = t.String()
 							}
 							if ts != "*bytes.Buffer" && ts != "*strings.Builder" {
